@@ -95,7 +95,7 @@ Lemma install_w s g k m m' :
   (forall r0, In r0 (g_pre g) ->
      occ r0 (g_pre g) = 1%nat /\ occ r0 (m_wq m) = O /\
      exists l0, aget (store s) r0 = Some l0 /\ l_key l0 = k /\ l_timeouted l0 = true /\ l_locked l0 = 0) ->
-  (forall q, m_wait m' = Some q -> wq_cap q = 0 -> wq_fast q = []) ->
+  (forall q, m_wait m' = Some q -> (wq_cap q = 0 -> wq_fast q = []) /\ (wq_mode q = WFast -> wq_ring q = [])) ->
   GInv (setm s k m') (g <| g_ph := [] |> <| g_pre := [] |> <| g_pw := false |>).
 Proof.
   intros G Hm Hk Hpw E1 E2 E3 E4 Hrel Hpre Hcap.
@@ -253,12 +253,12 @@ Lemma qframe_mgr_some s s' k m : qframe s s' -> aget (mgrs s) k = Some m -> exis
 Proof. intros Q H. pose proof (qf_m _ _ Q k) as P. rewrite H in P. auto. Qed.
 
 Definition hq_capok (q : hqueue) : Prop := hq_cap q = 0 -> hq_fast q = [].
-Definition wq_capok (q : wqueue) : Prop := wq_cap q = 0 -> wq_fast q = [].
+Definition wq_capok (q : wqueue) : Prop := (wq_cap q = 0 -> wq_fast q = []) /\ (wq_mode q = WFast -> wq_ring q = []).
 Lemma wq_pop_capok q : wq_capok q -> wq_capok (wq_pop q).
 Proof.
-  unfold wq_capok, wq_pop. intros H. destruct (wq_fast q) as [|x t] eqn:Ef.
-  - destruct (wq_ring q); cbn; auto.
-  - cbn. intros E. specialize (H E). discriminate.
+  unfold wq_capok, wq_pop. intros [H H2]. destruct (wq_fast q) as [|x t] eqn:Ef.
+  - destruct (wq_ring q) eqn:Er; cbn; auto. rewrite Ef. split; auto. intros E. specialize (H2 E). discriminate.
+  - cbn. split; auto. intros E. specialize (H E). discriminate.
 Qed.
 Lemma hq_pop_capok q q' o : hq_capok q -> hq_pop q = (o, q') -> hq_capok q'.
 Proof.
